@@ -137,6 +137,9 @@ func classify(ops []Op) map[string]bool {
 			if deleted[key] {
 				l["re-add-of-deleted-id"] = true
 			}
+			if op.Why == "dup-entity?" {
+				l["vector-less-add-of-an-existing-id"] = true
+			}
 			if op.Why == "replace" {
 				l["item-replaced-by-delete-and-add"] = true
 				if afterSnapshot {
